@@ -29,6 +29,7 @@ def body(ctx):
     v01 = []
     c01.write_loop(ctx, prog, v01)
     c01.handover(ctx, prog, v01)
+    c01.drain_all(ctx, prog, v01)
     if v01:
         ctx.replay_timeout = 180
         ctx.report('outbound-stream', f"{len(v01)} write-path obligations violated, e.g. {str(v01[0])[:250]}; confirmed by the native write-path differential", {'solver_counterexamples': [str(v)[:300] for v in v01[:6]]},
